@@ -99,6 +99,8 @@ func main() {
 		if err != nil {
 			panic(err)
 		}
+		x.sh.Add(0, rulesh.CoqConsts(9999999))
+		x.rep.CorrCases++
 	}
 	fm, hm, bm := rulesh.FlowMod(), rulesh.HotMod(), rulesh.BrkMod()
 	fk, hk, bk := flowKit(fm), hotKit(hm), brkKit(bm)
